@@ -418,6 +418,12 @@ func runDRM(c *fw.Ctx, id string, dir string) {
 	if r.Intn(3) == 0 {
 		b.Spine[1].Path = odir + "text/chapter2" + []string{".xht", ".xml", "", ".HTM", ".page"}[r.Intn(5)]
 	}
+	if r.Intn(2) == 0 {
+		// an SVG content document in the spine (EPUB 3 core media type image/svg+xml:
+		// a content document like the XHTML ones, whatever its name ends in)
+		b.Spine = append(b.Spine, epubw.Chapter{ID: "svgdoc", Path: odir + "text/plate" + []string{".svg", ".svg", ".SVG", ".xml"}[r.Intn(4)],
+			Title: "Plate", Heading: tk.Next(), Paras: []string{tk.Next()}, MediaType: "image/svg+xml"})
+	}
 	var items []item
 	for _, ch := range b.Spine {
 		items = append(items, item{ch.Path, "content", true})
